@@ -7,6 +7,27 @@ _A_NOTE = ('Trusted: CrossHair 0.0.110 proxy semantics and path pruning, z3 5.1.
            'before a VIOLATION is printed.')
 
 CLAIMS = {
+    'C18': dict(
+        engine='B-direct-smt+A-crosshair',
+        technique='direct SMT queries (z3 string / regex theory, cvc5 cross-check) over encodings regenerated from the source; solver-enumerated bounded families (CrossHair) for the text pipelines',
+        text=('B1: with the path-element, directive and call regexes read from the imported modules and translated to '
+              'z3 regular expressions, and the printer templates read from the AST of daglish.Attr / Index / Key, for '
+              'ALL strings (no length bound) over the stated alphabets: every printed element (quote-, backslash- and '
+              '"="-free string key incl. the empty one, non-negative int key / index, identifier attribute) is in the '
+              'parser language; no longer parsable element is a prefix of a printed element followed by any '
+              'continuation, so the left-to-right split is the printed one; "=" never occurs in a printed path; '
+              '"config_str:" + any urlsafe-base64 text matches the directive regex; every dotted name with or without '
+              'a parenthesised newline-free argument text matches the call regex. A: for every member of a family with '
+              'dict keys from 12 values (empty, with space / backslash / newline / non-ASCII / dots / brackets, ints, '
+              'digit strings) and 15 literal leaves, keyword and positional roots, six wrapper kinds: every '
+              'as_dict_flattened / as_str_flattened leaf appears once, resolves under an independent tokenizer to that '
+              'leaf, and set_value(path=repr(v)) for three values changes exactly that leaf (targets inside tuples '
+              'excluded); for every directive sequence of length <= 4 over 10 directives (two base configs, a '
+              'serialized config, three overrides, a mutating and a replacing fiddler, two ill-formed ones), the '
+              'listed parse() groupings and intermediate .value reads: the flag value equals a left-fold reference '
+              'interpreter, with errors exactly where it errs; serialized flag values parse back equal; '
+              'CallExpression.parse inverts rendering for 16 literal argument values.'),
+        note='Trusted: z3 5.1.0 string solver (each query also sent to the cvc5 1.0.3 binary; "no answer" within its limit is recorded per query), CrossHair 0.0.110 for the enumerated families, CPython re / ast. repr(str) is modelled as quoting on the escape-free alphabet; keys that need escapes are covered by the concrete family. regex.match is modelled as longest-matching-prefix and validated against re on a corpus each run. A query answered unknown is inconclusive, never success; counterexamples are replayed against the real parser before being reported.'),
     'C09': dict(
         engine='A-crosshair+B2-codec-stub',
         technique='bounded symbolic execution of the real code (CrossHair + z3) with a validated codec model; solver-enumerated bounded family for the JSON text stage',
